@@ -5,7 +5,7 @@
 From Coq Require Import Reals ZArith List.
 Set Warnings "-ambiguous-paths".
 From Coquelicot Require Import Coquelicot.
-From Verif Require Import lib.C20_Numpy gen.WinHelp C20.Model C20.ProofsWin C20.ProofsGamma C20.ProofsShift C20.ProofsGauss C20.ProofsAcc.
+From Verif Require Import lib.C20_Numpy gen.WinHelp C20.Model C20.ProofsWin C20.ProofsGamma C20.ProofsShift C20.ProofsGauss C20.ProofsAcc C20.NormalCdf.
 Open Scope R_scope.
 
 (** Windows: exactly [width] samples (none for width <= 0) *)
@@ -181,6 +181,19 @@ Print Assumptions normal_cdf_symmetric.
 Theorem normal_cdf_increasing : forall a b, a < b -> Phi a < Phi b.
 Proof. exact Phi_increasing. Qed.
 Print Assumptions normal_cdf_increasing.
+(* ... and it really is a distribution function: limits 0 and 1, the density has total mass 1 and
+   Phi x is the mass below x (C20/NormalCdf.v, from the Gaussian integral proved in C05/Gauss.v) *)
+Theorem normal_cdf_limits : is_lim Phi m_infty 0 /\ is_lim Phi p_infty 1.
+Proof. exact (conj Phi_lim_m Phi_lim_p). Qed.
+Print Assumptions normal_cdf_limits.
+Theorem normal_pdf_total_mass :
+  is_RInt_gen std_normal_pdf (Rbar_locally m_infty) (Rbar_locally p_infty) 1.
+Proof. exact std_normal_pdf_total. Qed.
+Print Assumptions normal_pdf_total_mass.
+Theorem normal_cdf_is_mass_below : forall x,
+  is_RInt_gen std_normal_pdf (Rbar_locally m_infty) (at_point x) (Phi x).
+Proof. exact Phi_is_mass_below. Qed.
+Print Assumptions normal_cdf_is_mass_below.
 (* for EVERY p with min(p, 1-p) >= 1e-20 the true quantile is bracketed within 1e-6, so
    any x with CDF value p is within 1e-6 standard deviations of gauss_quant p mu std *)
 Theorem gauss_quant_accuracy : forall p, 1 / 10 ^ 20 <= p -> p <= 1 - 1 / 10 ^ 20 ->
